@@ -93,14 +93,14 @@ class Ctx(object):
                 return (1, raw)
         return (1, canonical)
 
-    def graph_with(self, body, extra_flags=(), pinned=None):
+    def graph_with(self, body, extra_flags=(), pinned=None, callhook=None):
         """CFG refined by the body's constant-carrying locals (as graph()) plus the given flags / pinned values"""
         from . import sample
         base = [f for f in sample.scenario_flags(body)][:16]
         flags = list(extra_flags) + [f for f in base if f not in extra_flags]
-        g = flow.Graph(body, flags, pinned=pinned)
+        g = flow.Graph(body, flags, pinned=pinned, callhook=callhook)
         if len(g.nodes) > 60 * max(1, len(body.blocks)):
-            g = flow.Graph(body, list(extra_flags), pinned=pinned)
+            g = flow.Graph(body, list(extra_flags), pinned=pinned, callhook=callhook)
         return g
 
     # ---- obligations ---------------------------------------------------------------------
